@@ -58,6 +58,15 @@ func listed(prop, id string) bool {
 	return false
 }
 
+func listedAnywhere(id string) bool {
+	for _, f := range findings {
+		if f.Status == "known" && f.ID == id {
+			return true
+		}
+	}
+	return false
+}
+
 // matchKnown returns the id of a listed known finding whose signature holds on this failing case.
 func matchKnown(prop string, m *Mismatch, ev map[string]any, sc *Scenario) string {
 	for _, id := range candidateSignatures(m, ev, sc) {
